@@ -33,7 +33,8 @@ from vsc.model.constraint_block_model import ConstraintBlockModel
 from vsc.model.randomizer import Randomizer
 from vsc.model.field_scalar_model import FieldScalarModel
 from vsc.model.source_info import SourceInfo
-from vsc.types import type_base, field_info, list_t
+from vsc.types import type_base, field_info, list_t, dynamic_constraint_proxy
+from vsc.model.expr_dynref_model import ExprDynRefModel
 from vsc.model.solve_failure import SolveFailure
 from vsc.impl.constraint_proxy import ConstraintProxy
 
@@ -104,6 +105,15 @@ class _randobj:
                         model = object.__getattribute__(self, "get_model")()
                         cm = model.get_constraint(a)
                         ret = ConstraintProxy(cm)
+                    elif isinstance(ret, dynamic_constraint_t):
+                        # The dynamic_constraint_t wrapper is per-type as 
+                        # well: its model is that of the instance created 
+                        # last. Refer to the block of this instance
+                        model = self._int_field_info.model
+                        if model is not None and a in model.constraint_dynamic_m.keys():
+                            ret = dynamic_constraint_proxy(ExprDynRefModel(
+                                model.constraint_dynamic_model_l[
+                                    model.constraint_dynamic_m[a]]))
                 
                 return ret
         
